@@ -40,6 +40,10 @@ SCENARIOS = [
     ("import math\nmath.pi.real", "infer"),
 ]
 PHASES = ["before_send", "after_send", "truncate", "exit", "raise"]
+# queries that reach the helper (module search, sys.path) but never receive a handle to a helper-side object: the
+# state-count sequences interleave them with the ones above
+HANDLELESS = [("import jso", "complete"), ("import json\njson.lo", "complete"), ("from . import ", "complete"),
+              ("import collections.a", "complete"), ("import email.mime\nemail.mime.", "complete")]
 
 _state = {"armed": None, "count": 0, "fired": 0, "pids": set()}
 _patched = [False]
@@ -276,7 +280,9 @@ def state_count_run(ctx, n_scripts):
     devs = []
     worst = 0
     for i in range(n_scripts):
-        code, method = SCENARIOS[i % len(SCENARIOS)]
+        pool = SCENARIOS + HANDLELESS
+        code, method = pool[(i * 7) % len(pool)] if (i // 20) % 2 == 0 else HANDLELESS[i % len(HANDLELESS)]
+        ctx.cls("state-count-script:" + ("handleless" if (code, method) in HANDLELESS else "with-handles"))
         s = jedi.Script(code, environment=env)
         getattr(s, method)()
         del s
